@@ -1,31 +1,57 @@
 (* Property C02 -- "Encoded messages are well-formed FIX on the wire".
    Only theorem statements; each is closed by [exact] of a lemma of C02/EncodeProofs.v and
-   followed by Print Assumptions.  wire_ok is the independent validator of C02/Spec_C02.v;
-   msg_encode is the model of Message::encode (coq/Codec/Encode.v). *)
+   followed by Print Assumptions.
+     msg_encode  = the model of Message::encode on a char buffer (coq/Codec/Encode.v), tied to the real
+                   encoder by the correspondence run;
+     wire_ok     = the independent validator of C02/Spec_C02.v (tokenizer; 8, 9, 35 first; BodyLength =
+                   exact byte count; 10=ddd last = byte sum mod 256 (C07's specification sum); header,
+                   body, trailer in turn, each in strictly increasing schema position; every group =
+                   count followed by exactly count elements each starting with the position-1 field);
+     wf_msg      = decidable well-formedness of the object (C02/WfC02.v), evaluated at run time on
+                   every generated message: per message type the metadata is unambiguous (wf_ctx),
+                   every present field sits in _pos under its schema position, rendered values contain
+                   no SOH, every group count field's value is the number of its elements, every
+                   element is non-empty and starts with its position-1 field, no _unknown bytes, and
+                   the body is shorter than 10^7 bytes;
+     fresh       = the suppress bits of 8, 9, 10 are still set (the object was never encoded);
+     render_ok   = the per-type rendering leaves canonical decimal ints < 2^31 and strings unchanged
+                   (proved for render_default: C02/RenderProofs.v render_default_ok). *)
 From Coq Require Import NArith ZArith List Bool.
 From F8 Require Import Codec.Bytes Codec.Meta Codec.Extract Codec.Decode Codec.Encode Codec.Render
-                       Codec.Example C02.Spec_C02 C02.EncodeProofs.
+                       Codec.Example C02.Spec_C02 C02.WfC02 C02.AuxProofs C02.EncodeProofs.
 Import ListNotations.
 Local Open Scope N_scope.
 
+(* For EVERY schema context and EVERY well-formed, never-encoded message object (any message
+   type, any subset of fields, any number of group elements nested to any depth -- and, since
+   wf_msg speaks about the object and not about how it was built, whatever the insertion order
+   was) the encoder succeeds and its output satisfies all clauses of the property. *)
+Theorem c02_wellformed : forall c m,
+  render_ok c -> wf_msg c m = true -> fresh m = true ->
+  exists b m', msg_encode c m = Ok (b, m') /\ wire_ok c b = true.
+Proof. exact c02_wellformed_lemma. Qed.
+Print Assumptions c02_wellformed.
+
 (* Finding F05: Message::encode clears the suppress bits of BeginString, BodyLength and
-   CheckSum and never restores them, so encoding the same object a second time emits
-   8=, 9= and 10= twice: the first output is well-formed, the second is not. *)
+   CheckSum and never restores them, so encoding the same (well-formed, fresh) object a second
+   time emits 8=, 9= and 10= twice: the first output is well-formed, the second is not. *)
 Theorem c02_second_encode_refuted :
-  exists c m, wire_ok c (enc_bytes c m) = true /\ wire_ok c (enc_twice c m) = false.
+  exists c m, render_ok c /\ wf_msg c m = true /\ fresh m = true /\
+              wire_ok c (enc_bytes c m) = true /\ wire_ok c (enc_twice c m) = false.
 Proof. exact c02_second_encode_refuted_lemma. Qed.
 Print Assumptions c02_second_encode_refuted.
 
 (* Finding F04: a group element built without its position-1 field is emitted as it is, which
-   contradicts the last clause of the property. *)
+   contradicts the last clause of the property (wf_msg excludes such objects). *)
 Theorem c02_no_delimiter_refuted :
-  exists c m b, msg_encode c m = Ok (b, snd (match msg_encode c m with Ok r => r | _ => ([], m) end))
-                /\ wire_ok c b = false.
+  exists c m b m', render_ok c /\ fresh m = true /\ msg_encode c m = Ok (b, m') /\ wire_ok c b = false.
 Proof. exact c02_no_delimiter_refuted_lemma. Qed.
 Print Assumptions c02_no_delimiter_refuted.
 
 (* Non-vacuity: a message with two group elements, the second with two nested elements, all
-   fields inserted out of schema order, encodes to bytes accepted by wire_ok. *)
-Theorem c02_nonvacuous : wire_ok ex_ctx (enc_bytes ex_ctx ex_list) = true.
+   fields inserted out of schema order, meets every hypothesis of c02_wellformed. *)
+Theorem c02_nonvacuous :
+  render_ok ex_ctx /\ wf_msg ex_ctx ex_list = true /\ fresh ex_list = true /\
+  wire_ok ex_ctx (enc_bytes ex_ctx ex_list) = true.
 Proof. exact c02_nonvacuous_lemma. Qed.
 Print Assumptions c02_nonvacuous.
